@@ -28,6 +28,10 @@ class FeatureShiftInjector(Injector):
         # handle type
         ret, (col,) = self._preprocess(data, col)
 
+        # integer data cannot hold a fractional shift: promote instead of truncating it
+        if np.issubdtype(ret.dtype, np.integer):
+            ret = ret.astype(float)
+
         # add shift
         self._section_mean = np.mean(ret[from_index:to_index, col])
         self._delta = (alpha + self._section_mean) * shift_factor
